@@ -3,7 +3,7 @@
     non-vacuity example per theorem.
 
     Vocabulary (C10/Exn.v, Leaf.v, Xml.v, Dict.v, Pipe.v; try/except tables, guards and call
-    skeletons from Gen/Pipeline.v, regenerated from the Spyne sources on every run):
+    skeletons from Gen/ReqPipe.v, regenerated from the Spyne sources on every run):
       res A       = Ret a | Raise cls code        every Python raise, Faults with their faultcode
       safe x      = x is a value or a Fault whose code is in the Client family
       outcome     = Called c | Answered cls code | Escaped cls code
